@@ -44,6 +44,7 @@ def evaluate(case):
         where = "after step %d (%s)" % (i, name)
         mt = m.model.to_mtree()
         worst[0] = max(worst[0], em.compare_with_rebuild(m, m.tree, mt, where=where))
+        em.check_ghosts(m, where, structural=False, values=True)
 
     m = em.Machine(case, on_step=on_step).run()
     classes = set(m.classes)
